@@ -270,8 +270,8 @@ class Session:
         if mn or mxn:
             return ("tie", "model driver failed: %s" % (mn or mxn))
         ic, ix = norm_c(ic), norm_ref(ix)
-        if any(l.startswith("bad-op") for l in ic + ix):
-            return ("malformed", "op file outside the grammar (a driver answered bad-op)")
+        if any(a.startswith("bad-op") and b.startswith("bad-op") for a, b in zip(ic, ix)):
+            return ("malformed", "op file outside the grammar (both drivers answered bad-op)")
         if note_c and note_x and len(ic) == len(ix):
             return ("tie", "both interfaces die at the same observation %d (not a difference between them): C: %s | C++: %s"
                     % (len(ic), note_c[:250], note_x[:250]))
@@ -333,7 +333,7 @@ def klass(msg):
     return first
 
 
-def shrink_keep_flags(ops, fails, budget=60):
+def shrink_keep_flags(ops, fails, budget=150):
     lines = wc.op_lines(ops)
     head = [lines[0]] if lines and lines[0].startswith("capi_flags") else []
     body = lines[len(head):]
